@@ -21,11 +21,17 @@ let () = iter_lines (fun line ->
                 r_is_seq = b is_seq; r_closable = b closable; r_passthrough = b passthrough; r_auto_cl = b auto_cl;
                 r_autocorrect = false;
                 r_callbacks = List.init (int_of_string ncb) (fun i -> CbUser (nat_of_int i)) } in
-      let r = if b made_seq then make_sequence r else r in
+      (* what the application did with the body before handing the response over *)
+      let (r, early) = (match made_seq.[0] with
+        | '0' -> (r, []) | '1' -> (make_sequence r, [])
+        | 'g' -> ((match ensure_sequence r with Some r' -> r' | None -> r), [])
+        | 'd' -> (set_data r (item (sub1 made_seq)), [])
+        | 'f' -> let (r', closed) = freeze (s_of (sub1 made_seq)) r in (r', if closed then [EWrapped] else [])
+        | _ -> failwith "pre") in
       (match wsgi_response_id r (b is_head) with
        | Err e -> perr e
        | Ok ((s, l), h) ->
            cat "/" pitem s.s_chunks ^ " " ^ ps l ^ " " ^ cat "/" (fun (k, v) -> ps k ^ "=" ^ ps v) h ^ " "
            ^ cat "," (function EWrapped -> "w" | EUser i -> string_of_int (int_of_nat i) | EIterClose -> "g")
-               (List.filter (fun e -> e <> EIterClose) s.s_trace))
+               (early @ List.filter (fun e -> e <> EIterClose) s.s_trace))
   | _ -> "bad-command")
